@@ -40,9 +40,11 @@ Record ws := mkW {
   w_edits : nat; w_watched : nat;
   w_nb : nat; w_fver : nat -> option nat;   (* finished builds and the version they read *)
   w_wbuilds : nat; w_lastTick : nat;
-  w_dispRet : bool }.                  (* a Dispose call has returned *)
+  w_dispRet : bool;                    (* a Dispose call has returned *)
+  w_hasData : bool;                    (* watcher.data has paths: a watch-mode build has recorded its watch data *)
+  w_first : bool }.                    (* Watch's first-build goroutine has not started its build yet *)
 
-Definition ws0 := mkW false false CNone WOff None 0 0 0 (fun _ => None) 0 0 false.
+Definition ws0 := mkW false false CNone WOff None 0 0 0 (fun _ => None) 0 0 false false false.
 
 Inductive wlabel := WEdit | WBuild (b : nat) | WServed (b : nat) | WTau.
 
@@ -50,6 +52,7 @@ Inductive wact :=
 | XEdit | XExpire                      (* the recent build goes stale after 250 ms *)
 | XWatch                               (* ctx.Watch() *)
 | XClientStart | XClientRead | XClientFinish
+| XFirstStart                          (* Watch's goroutine: the first watch-mode build, AFTER any build in flight has ended *)
 | XServeRecent                         (* a dev-server request is answered from the recent build *)
 | XWatcher                             (* the watcher goroutine takes its next step (a tick, in WSleep) *)
 | XDisposeStart | XDisposeReturn.
@@ -63,20 +66,32 @@ Definition watching (p : wpc) : bool := match p with WOff => false | _ => true e
 Definition wexec (s : ws) (a : wact) : option (ws * wlabel) :=
   match a with
   | XEdit => Some (mkW (w_disposed s) (w_stop s) (w_client s) (w_wpc s) (w_recent s) (S (w_edits s)) (w_watched s)
-                       (w_nb s) (w_fver s) (w_wbuilds s) (w_lastTick s) (w_dispRet s), WEdit)
+                       (w_nb s) (w_fver s) (w_wbuilds s) (w_lastTick s) (w_dispRet s) (w_hasData s) (w_first s), WEdit)
   | XExpire => Some (mkW (w_disposed s) (w_stop s) (w_client s) (w_wpc s) None (w_edits s) (w_watched s)
-                         (w_nb s) (w_fver s) (w_wbuilds s) (w_lastTick s) (w_dispRet s), WTau)
+                         (w_nb s) (w_fver s) (w_wbuilds s) (w_lastTick s) (w_dispRet s) (w_hasData s) (w_first s), WTau)
   | XWatch =>
       if negb (w_disposed s) && negb (watching (w_wpc s))
       then Some (mkW (w_disposed s) (w_stop s) (w_client s) WCheck (w_recent s) (w_edits s) (w_watched s)
-                     (w_nb s) (w_fver s) (w_wbuilds s) (w_lastTick s) (w_dispRet s), WTau)
+                     (w_nb s) (w_fver s) (w_wbuilds s) (w_lastTick s) (w_dispRet s) (w_hasData s) true, WTau)
       else None
   | XClientStart =>
       match w_client s with
       | CNone =>
           if negb (w_disposed s) && negb (watcher_owns (w_wpc s))
           then Some (mkW (w_disposed s) (w_stop s) (CStarted (w_nb s) (watching (w_wpc s))) (w_wpc s) (w_recent s)
-                         (w_edits s) (w_watched s) (S (w_nb s)) (w_fver s) (w_wbuilds s) (w_lastTick s) (w_dispRet s), WTau)
+                         (w_edits s) (w_watched s) (S (w_nb s)) (w_fver s) (w_wbuilds s) (w_lastTick s) (w_dispRet s) (w_hasData s) (w_first s), WTau)
+          else None
+      | _ => None
+      end
+  | XFirstStart =>
+      (* `if build != nil { build.waitGroup.Wait() }; ctx.Rebuild()`: the build it
+         starts is a new one, begun after watch mode was switched on *)
+      match w_client s with
+      | CNone =>
+          if w_first s && negb (w_disposed s) && negb (watcher_owns (w_wpc s))
+          then Some (mkW (w_disposed s) (w_stop s) (CStarted (w_nb s) true) (w_wpc s) (w_recent s)
+                         (w_edits s) (w_watched s) (S (w_nb s)) (w_fver s) (w_wbuilds s) (w_lastTick s) (w_dispRet s)
+                         (w_hasData s) false, WTau)
           else None
       | _ => None
       end
@@ -84,7 +99,7 @@ Definition wexec (s : ws) (a : wact) : option (ws * wlabel) :=
       match w_client s with
       | CStarted b cw =>
           Some (mkW (w_disposed s) (w_stop s) (CRead b cw (w_edits s)) (w_wpc s) (w_recent s)
-                    (w_edits s) (w_watched s) (w_nb s) (w_fver s) (w_wbuilds s) (w_lastTick s) (w_dispRet s), WTau)
+                    (w_edits s) (w_watched s) (w_nb s) (w_fver s) (w_wbuilds s) (w_lastTick s) (w_dispRet s) (w_hasData s) (w_first s), WTau)
       | _ => None
       end
   | XClientFinish =>
@@ -92,7 +107,7 @@ Definition wexec (s : ws) (a : wact) : option (ws * wlabel) :=
       | CRead b cw v =>
           Some (mkW (w_disposed s) (w_stop s) CNone (w_wpc s) (if w_disposed s then None else Some b)
                     (w_edits s) (if cw then v else w_watched s) (w_nb s) (updf (w_fver s) b v)
-                    (w_wbuilds s) (w_lastTick s) (w_dispRet s), WTau)
+                    (w_wbuilds s) (w_lastTick s) (w_dispRet s) (if cw then true else w_hasData s) (w_first s), WTau)
       | _ => None
       end
   | XServeRecent =>
@@ -104,50 +119,50 @@ Definition wexec (s : ws) (a : wact) : option (ws * wlabel) :=
       match w_wpc s with
       | WCheck =>
           Some (mkW (w_disposed s) (w_stop s) (w_client s) (if w_stop s then WExited else WSleep) (w_recent s)
-                    (w_edits s) (w_watched s) (w_nb s) (w_fver s) (w_wbuilds s) (w_lastTick s) (w_dispRet s), WTau)
+                    (w_edits s) (w_watched s) (w_nb s) (w_fver s) (w_wbuilds s) (w_lastTick s) (w_dispRet s) (w_hasData s) (w_first s), WTau)
       | WSleep =>
-          if w_watched s <? w_edits s then               (* tryToFindDirtyPath found something *)
+          if w_hasData s && (w_watched s <? w_edits s) then   (* tryToFindDirtyPath: only recorded paths can be dirty *)
             if w_disposed s then                         (* rebuild() of a disposed context does nothing *)
               Some (mkW (w_disposed s) (w_stop s) (w_client s) WCheck (w_recent s)
-                        (w_edits s) (w_watched s) (w_nb s) (w_fver s) (w_wbuilds s) (w_lastTick s) (w_dispRet s), WTau)
+                        (w_edits s) (w_watched s) (w_nb s) (w_fver s) (w_wbuilds s) (w_lastTick s) (w_dispRet s) (w_hasData s) (w_first s), WTau)
             else match w_client s with
                  | CStarted b _ | CRead b _ _ =>          (* join the client's build *)
                      Some (mkW (w_disposed s) (w_stop s) (w_client s) (WJoin b) (w_recent s)
-                               (w_edits s) (w_watched s) (w_nb s) (w_fver s) (w_wbuilds s) (w_lastTick s) (w_dispRet s), WTau)
+                               (w_edits s) (w_watched s) (w_nb s) (w_fver s) (w_wbuilds s) (w_lastTick s) (w_dispRet s) (w_hasData s) (w_first s), WTau)
                  | CNone =>                               (* start a build of its own *)
                      Some (mkW (w_disposed s) (w_stop s) CNone (WOwn (w_nb s)) (w_recent s)
-                               (w_edits s) (w_watched s) (S (w_nb s)) (w_fver s) (S (w_wbuilds s)) (w_edits s) (w_dispRet s),
+                               (w_edits s) (w_watched s) (S (w_nb s)) (w_fver s) (S (w_wbuilds s)) (w_edits s) (w_dispRet s) (w_hasData s) (w_first s),
                            WBuild (w_nb s))
                  end
           else Some (mkW (w_disposed s) (w_stop s) (w_client s) WCheck (w_recent s)
-                         (w_edits s) (w_watched s) (w_nb s) (w_fver s) (w_wbuilds s) (w_lastTick s) (w_dispRet s), WTau)
+                         (w_edits s) (w_watched s) (w_nb s) (w_fver s) (w_wbuilds s) (w_lastTick s) (w_dispRet s) (w_hasData s) (w_first s), WTau)
       | WOwn b =>
           Some (mkW (w_disposed s) (w_stop s) (w_client s) (WOwnRead b (w_edits s)) (w_recent s)
-                    (w_edits s) (w_watched s) (w_nb s) (w_fver s) (w_wbuilds s) (w_lastTick s) (w_dispRet s), WTau)
+                    (w_edits s) (w_watched s) (w_nb s) (w_fver s) (w_wbuilds s) (w_lastTick s) (w_dispRet s) (w_hasData s) (w_first s), WTau)
       | WOwnRead b v =>                                   (* the owner's setWatchData, then publish *)
           Some (mkW (w_disposed s) (w_stop s) (w_client s) (WSet v) (if w_disposed s then None else Some b)
-                    (w_edits s) v (w_nb s) (updf (w_fver s) b v) (w_wbuilds s) (w_lastTick s) (w_dispRet s), WTau)
+                    (w_edits s) v (w_nb s) (updf (w_fver s) b v) (w_wbuilds s) (w_lastTick s) (w_dispRet s) (w_hasData s) (w_first s), WTau)
       | WJoin b =>
           match w_fver s b with
           | Some v => Some (mkW (w_disposed s) (w_stop s) (w_client s) (WSet v) (w_recent s)
-                                (w_edits s) (w_watched s) (w_nb s) (w_fver s) (w_wbuilds s) (w_lastTick s) (w_dispRet s), WTau)
+                                (w_edits s) (w_watched s) (w_nb s) (w_fver s) (w_wbuilds s) (w_lastTick s) (w_dispRet s) (w_hasData s) (w_first s), WTau)
           | None => None
           end
       | WSet v =>                                         (* w.setWatchData(w.rebuild()) *)
           Some (mkW (w_disposed s) (w_stop s) (w_client s) WCheck (w_recent s)
-                    (w_edits s) v (w_nb s) (w_fver s) (w_wbuilds s) (w_lastTick s) (w_dispRet s), WTau)
+                    (w_edits s) v (w_nb s) (w_fver s) (w_wbuilds s) (w_lastTick s) (w_dispRet s) (w_hasData s) (w_first s), WTau)
       | WOff | WExited => None
       end
   | XDisposeStart =>
       if w_disposed s then None
       else Some (mkW true (watching (w_wpc s)) (w_client s) (w_wpc s) None
-                     (w_edits s) (w_watched s) (w_nb s) (w_fver s) (w_wbuilds s) (w_lastTick s) (w_dispRet s), WTau)
+                     (w_edits s) (w_watched s) (w_nb s) (w_fver s) (w_wbuilds s) (w_lastTick s) (w_dispRet s) (w_hasData s) (w_first s), WTau)
   | XDisposeReturn =>
       (* watcher.stop() returned (the goroutine exited) and no build is active *)
       if w_disposed s && (match w_wpc s with WOff | WExited => true | _ => false end)
          && (match w_client s with CNone => true | _ => false end)
       then Some (mkW (w_disposed s) (w_stop s) (w_client s) (w_wpc s) (w_recent s)
-                     (w_edits s) (w_watched s) (w_nb s) (w_fver s) (w_wbuilds s) (w_lastTick s) true, WTau)
+                     (w_edits s) (w_watched s) (w_nb s) (w_fver s) (w_wbuilds s) (w_lastTick s) true (w_hasData s) (w_first s), WTau)
       else None
   end.
 
